@@ -147,6 +147,65 @@ def corpus_modules():
         ents.append(e)
         cases += [(e, [0]), (e, [7])]
     out.append((irgen.Generated(m, ents, []), cases))
+    # (4) an operand that is used again after ~x / -x / a widening cast (riscv computed them in place, fixed in /repo)
+    m = ir.Module("c05_inplace")
+    ents, cases = [], []
+
+    def unary(name, build):
+        f = ir.Function(name, ir.Binding.GLOBAL, ir.i32)
+        m.add_function(f)
+        blk = ir.Block(name + "_entry")
+        f.add_block(blk)
+        f.entry = blk
+        a = ir.Parameter("a", ir.i32)
+        f.add_parameter(a)
+        r = build(blk, a)
+        blk.add_instruction(ir.Return(r))
+        e = irgen.Entry(name, [ir.i32], ir.i32, True)
+        ents.append(e)
+        for v in (0, 1, 7, -1, 128, 0x80, 0x8000, 40000, -40000, 2147483647):
+            cases.append((e, [v]))
+
+    def add(blk, i):
+        blk.add_instruction(i)
+        return i
+    unary("inv_reuse", lambda b, a: add(b, ir.Binop(add(b, ir.Unop("~", a, "u", ir.i32)), "+", a, "r", ir.i32)))
+    unary("neg_reuse", lambda b, a: add(b, ir.Binop(add(b, ir.Unop("-", a, "u", ir.i32)), "^", a, "r", ir.i32)))
+
+    def casts(b, a):
+        s8 = add(b, ir.Cast(a, "s8", ir.i8))
+        x = add(b, ir.Cast(s8, "x", ir.i32))            # sign extension
+        u8 = add(b, ir.Cast(s8, "u8", ir.u8))
+        y = add(b, ir.Cast(u8, "y", ir.i32))            # zero extension of the same byte
+        s16 = add(b, ir.Cast(a, "s16", ir.i16))
+        z = add(b, ir.Cast(s16, "z", ir.i32))
+        u16 = add(b, ir.Cast(s16, "u16", ir.u16))
+        w = add(b, ir.Cast(u16, "w", ir.i32))
+        c3 = add(b, ir.Const(3, "c3", ir.i32))
+        t1 = add(b, ir.Binop(x, "*", c3, "t1", ir.i32))
+        t2 = add(b, ir.Binop(t1, "+", y, "t2", ir.i32))
+        t3 = add(b, ir.Binop(t2, "*", c3, "t3", ir.i32))
+        t4 = add(b, ir.Binop(t3, "+", z, "t4", ir.i32))
+        t5 = add(b, ir.Binop(t4, "*", c3, "t5", ir.i32))
+        return add(b, ir.Binop(t5, "+", w, "t6", ir.i32))
+    unary("cast_reuse", casts)
+
+    def signcasts(b, a):
+        """signed narrow -> unsigned wide keeps the VALUE modulo 2^n, i.e. sign-extends (riscv zero-extended, fixed in /repo)"""
+        s8 = add(b, ir.Cast(a, "s8", ir.i8))
+        x = add(b, ir.Cast(s8, "x", ir.u32))            # I8TOU32
+        s16 = add(b, ir.Cast(a, "s16", ir.i16))
+        y = add(b, ir.Cast(s16, "y", ir.u32))           # I16TOU32
+        h = add(b, ir.Cast(s8, "h", ir.u16))            # I8TOU16
+        z = add(b, ir.Cast(h, "z", ir.u32))             # U16TOU32
+        c3 = add(b, ir.Const(3, "c3", ir.u32))
+        t1 = add(b, ir.Binop(x, "*", c3, "t1", ir.u32))
+        t2 = add(b, ir.Binop(t1, "+", y, "t2", ir.u32))
+        t3 = add(b, ir.Binop(t2, "*", c3, "t3", ir.u32))
+        t4 = add(b, ir.Binop(t3, "+", z, "t4", ir.u32))
+        return add(b, ir.Cast(t4, "r", ir.i32))
+    unary("cast_sign", signcasts)
+    out.append((irgen.Generated(m, ents, []), cases))
     return out
 
 
@@ -352,7 +411,7 @@ def corpus_modules_tagged():
     from ppci import ir
     from ppci.irutils import Reader
     from . import irgen
-    out = [(g, cases, "corpus") for g, cases in corpus_modules() if g.module.name != "c05_consts"]
+    out = [(g, cases, "corpus") for g, cases in corpus_modules() if g.module.name not in ("c05_consts",)]
     for path in sorted((common.VERIF / "corpus" / "C05").glob("*.ir")):
         with open(path) as f:
             m = Reader().read(f)
